@@ -59,6 +59,62 @@ impl c2pa::http::SyncHttpResolver for Recorder {
     }
 }
 
+/// abstract hash term -> real bytes: {"leaf": id} = sha256 of the id text, {"node": [l, r]} = concat_and_hash(l, r)
+fn term_bytes(t: &Value) -> Vec<u8> {
+    use c2pa::verif_hooks::merkle as mk;
+    if let Some(id) = t.get("leaf") {
+        return mk::hash_by_alg("sha256", id.to_string().as_bytes(), None);
+    }
+    let n = t["node"].as_array().expect("node");
+    mk::concat_and_hash("sha256", &term_bytes(&n[0]), Some(&term_bytes(&n[1])))
+}
+
+/// Real Merkle code on a concrete scenario: n leaves (leaf i = term {"leaf": i}), max_proofs, location,
+/// candidate leaf term, optional explicit proof (list of terms; null = use the generated proof).
+fn merkle_scenario(a: &[Value]) -> Value {
+    use c2pa::{assertions::{MerkleMap, VecByteBuf}, verif_hooks::merkle as mk};
+    let n = a[0].as_u64().unwrap() as usize;
+    let max_proofs = a[1].as_u64().unwrap() as usize;
+    let loc = a[2].as_u64().unwrap() as usize;
+    let leaf_terms = a.get(6).and_then(|v| v.as_array().cloned());
+    let leaves: Vec<mk::MerkleNode> = (0..n)
+        .map(|i| match &leaf_terms {
+            Some(ts) if i < ts.len() => mk::MerkleNode(term_bytes(&ts[i])),
+            _ => mk::MerkleNode(term_bytes(&json!({"leaf": i}))),
+        })
+        .collect();
+    let tree = mk::C2PAMerkleTree::from_leaves(leaves, "sha256", false);
+    let row = std::cmp::min(max_proofs, tree.layers.len() - 1);
+    let hashes = VecByteBuf(tree.layers[row].iter().map(|m| serde_bytes::ByteBuf::from(m.0.clone())).collect());
+    let mm = MerkleMap { unique_id: 0, local_id: 0, count: n, alg: Some("sha256".into()), init_hash: None, hashes,
+                         fixed_block_size: None, variable_block_sizes: None };
+    let gen = tree.get_proof_by_index(loc, max_proofs);
+    let gen_ok = gen.is_ok();
+    let gen_proof: Vec<Vec<u8>> = gen.unwrap_or_default();
+    let to_opt = |p: &Vec<Vec<u8>>| if p.is_empty() { None } else { Some(VecByteBuf(p.iter().map(|h| serde_bytes::ByteBuf::from(h.clone())).collect())) };
+    let own = if loc < n { mm.check_merkle_tree("sha256", &tree.leaves[loc].0, loc, &to_opt(&gen_proof)) } else { false };
+    let cand = term_bytes(&a[3]);
+    let proof: Vec<Vec<u8>> = match a[4].as_array() {
+        Some(ts) => ts.iter().map(term_bytes).collect(),
+        None => gen_proof.clone(),
+    };
+    let explicit_none = a.get(5).and_then(|v| v.as_bool()).unwrap_or(false);
+    let p = if explicit_none { None } else { Some(VecByteBuf(proof.iter().map(|h| serde_bytes::ByteBuf::from(h.clone())).collect())) };
+    let cand_ok = mm.check_merkle_tree("sha256", &cand, loc, &p);
+    json!({"generated_ok": gen_ok, "generated_proof_len": gen_proof.len(), "own_leaf_verifies": own, "candidate_verifies": cand_ok,
+           "candidate_is_leaf": loc < n && cand == tree.leaves[loc].0})
+}
+
+fn hex_bytes(h: &str) -> Vec<u8> {
+    (0..h.len() / 2).map(|i| u8::from_str_radix(&h[2 * i..2 * i + 2], 16).unwrap()).collect()
+}
+
+/// SHA-256 of the empty string (hash_by_alg refuses empty input)
+fn sha256_empty() -> [u8; 32] {
+    [0xe3, 0xb0, 0xc4, 0x42, 0x98, 0xfc, 0x1c, 0x14, 0x9a, 0xfb, 0xf4, 0xc8, 0x99, 0x6f, 0xb9, 0x24,
+     0x27, 0xae, 0x41, 0xe4, 0x64, 0x9b, 0x93, 0x4c, 0xa4, 0x95, 0x99, 0x1b, 0x78, 0x52, 0xb8, 0x55]
+}
+
 fn call(f: &str, a: &[Value]) -> Value {
     match f {
         "to_manifest_uri" => json!(lh::to_manifest_uri(s(&a[0]))),
@@ -99,6 +155,23 @@ fn call(f: &str, a: &[Value]) -> Value {
             Ok(p) => json!({"variant":"Ok","payload":[p.to_string_lossy()]}),
             Err(_) => json!({"variant":"Err","payload":[null]}),
         },
+        "merkle_scenario" => merkle_scenario(a),
+        // real range hashing: args = [data (latin-1 text), [[start,len]..] | null, is_exclusion, max_hash_buf, expected bytes (hex)]
+        "hash_ranges" => {
+            let data: Vec<u8> = s(&a[0]).chars().map(|c| c as u32 as u8).collect();
+            let ranges = a[1].as_array().map(|rs| rs.iter().map(|r| c2pa::HashRange::new(r[0].as_u64().unwrap(), r[1].as_u64().unwrap())).collect::<Vec<_>>());
+            let excl = a[2].as_bool().unwrap();
+            let maxbuf = a[3].as_u64().unwrap() as usize;
+            let want = hex_bytes(s(&a[4]));
+            let mut steps: Vec<(u32, u32)> = Vec::new();
+            let mut cur = std::io::Cursor::new(data);
+            let res = c2pa::verif_hooks::hash_hooks::hash_stream_with_max_buf("sha256", &mut cur, ranges, excl, maxbuf, &mut |s_, t_| { steps.push((s_, t_)); Ok(()) });
+            let expect = c2pa::verif_hooks::merkle::hash_by_alg("sha256", &want, None);
+            match res {
+                Ok(d) => json!({"ok": true, "matches_expected": if want.is_empty() { d == {use std::io::Write; let mut v = Vec::new(); v.write_all(&sha256_empty()).unwrap(); v} } else { d == expect }, "steps": steps}),
+                Err(e) => json!({"ok": false, "error": e.to_string(), "steps": steps}),
+            }
+        }
         "normalize_host" => json!(rh::normalize_host(s(&a[0]))),
         "looks_like_obfuscated_ip" => json!(rh::looks_like_obfuscated_ip(s(&a[0]))),
         // host_is_non_global on a URI string; {"uri_error": ..} when http::Uri rejects the text
